@@ -295,3 +295,27 @@ Proof.
   - intros [Hwf H]. split; [assumption|]. intros s Hs. apply secret_ok_spec; auto.
   - intros [Hwf H]. split; [assumption|]. intros s Hs. apply secret_ok_spec; auto.
 Qed.
+
+(* ---------- definition sites ---------- *)
+
+Theorem sites_ok_spec g seeds sites : wf g ->
+  (sites_ok g seeds sites = true <->
+   forall secret l, In (secret, l) sites ->
+     l <> [] /\ forall site, In site l -> flows g site secret /\ secret_spec g seeds site).
+Proof.
+  intro Hwf. unfold sites_ok. rewrite forallb_forall. split.
+  - intros H secret l Hin. specialize (H _ Hin). cbn [fst snd] in H.
+    destruct l as [|a l']; [discriminate|]. split; [discriminate|].
+    rewrite forallb_forall in H. intros site Hs. specialize (H _ Hs).
+    unfold site_ok in H. apply andb_true_iff in H. destruct H as [H1 H2].
+    split; [apply reach_sound; now apply memN_in|now apply secret_ok_spec].
+  - intros H [secret l] Hin. cbn [fst snd]. destruct (H _ _ Hin) as [Hne Hl].
+    destruct l as [|a l']; [congruence|]. apply forallb_forall. intros site Hs.
+    destruct (Hl _ Hs) as [Hf Hsp]. unfold site_ok. apply andb_true_iff. split; [now apply secret_ok_spec|].
+    apply memN_in. unfold flows in Hf.
+    destruct (N.eq_dec site secret) as [->|Hne'].
+    + destruct Hsp as [Hnode _]. now apply reach_complete; [|assumption|apply path_refl].
+    + apply reach_complete; [assumption| |assumption].
+      inversion Hf as [|x y z (k & ss & Hin' & _) _]; subst; [congruence|].
+      apply in_map_iff. now exists (secret, (k, ss)).
+Qed.
